@@ -245,10 +245,17 @@ def worker(prop, fin, fout):
     def on_alarm(signum, frame):
         raise CaseTimeout()
     signal.signal(signal.SIGALRM, on_alarm)
+    n_timeouts = 0
     with open(fout, "w") as out:
         for line in open(fin):
             case = json.loads(line)
-            signal.alarm(per_case_timeout)
+            # circuit breaker: a changed implementation that hangs on a whole class of cases must not hang the check. After 3
+            # timeouts in this worker the limit drops to 3 s, after 25 the rest of this worker's cases is not run (the check
+            # has its violation - impl-run-failed:IMPL-TIMEOUT with the first such case as replay - and exits 1 anyway)
+            if n_timeouts >= 25:
+                out.write(json.dumps({"fail": ["IMPL-TIMEOUT-SKIPPED"]}) + "\n")
+                continue
+            signal.alarm(per_case_timeout if n_timeouts < 3 else min(3, per_case_timeout))
             rec = {}
             try:
                 obs = mod.run_impl(case)
@@ -268,6 +275,7 @@ def worker(prop, fin, fout):
                 rec["k"] = None if k is None else hashlib.md5(json.dumps(k, sort_keys=True).encode()).hexdigest()
             except CaseTimeout:
                 rec = {"fail": ["IMPL-TIMEOUT"]}
+                n_timeouts += 1
             except BaseException as e:  # harness-level failure: report, do not hide
                 rec = {"fail": ["HARNESS-EXC", type(e).__name__, str(e)[:300], traceback.format_exc()[-600:]]}
             finally:
@@ -301,6 +309,10 @@ class Evaluator:
         canon_m = getattr(mod, "canon_model", None)
         canon_mw = getattr(mod, "canon_model_w", None)
         for c, i, m in zip(cases, impl, model):
+            if "fail" in i and i["fail"][0] == "IMPL-TIMEOUT-SKIPPED":
+                # not run (the worker's circuit breaker, after 25 timeouts): neither a result nor a violation of its own
+                res.append({"case": c, "impl_w": json.dumps(i["fail"]), "model_w": m, "diverges": False, "oracle": None, "key": None})
+                continue
             if "fail" in i:
                 res.append({"case": c, "impl_w": json.dumps(i["fail"]), "model_w": m, "diverges": True,
                             "oracle": "impl-run-failed:%s" % i["fail"][0], "key": None})
